@@ -19,6 +19,8 @@ func init() {
 			{ID: "C17-R4", Doc: "multi-readers tolerate empty reads", Run: c17r4},
 			{ID: "C17-R5", Doc: "EOF produced only at sanctioned sites", Run: c17r5},
 			{ID: "C17-R6", Doc: "rows returned with EOF (or nil) are never dropped", Run: c17r6},
+			{ID: "C17-R7", Doc: "no compound test of an error against nil and the end-of-stream sentinel is constant", Run: c17r7},
+			{ID: "C17-R8", Doc: "no stored value points into a refillable buffer", Run: c17r8},
 			// shared with C07 / C10 (decoding, merge and reduce readers are library readers of this property)
 			{ID: "C07-R5", Doc: "decoding reader: buffered remainder drained before next batch (shared)", Run: c07r5},
 			{ID: "C07-R6", Doc: "decoding reader: batch decoded into a frame of exactly the decoded, validated length (shared)", Run: c07r6},
@@ -205,10 +207,27 @@ func c17r3(c *RC) {
 				if cond == nil {
 					return x, false
 				}
-				if isArity(cond) && !strings.Contains(x, "A") {
+				// only the edge taken when the two sides are equal counts as "validated"
+				onEqualEdge := func() bool {
+					if len(from.Succs) != 2 {
+						return false
+					}
+					vEq, ok1 := evalCond(cond, func(e ast.Expr) (bool, bool) {
+						be, ok := ast.Unparen(e).(*ast.BinaryExpr)
+						if !ok || (be.Op != token.EQL && be.Op != token.NEQ) {
+							return false, false
+						}
+						return be.Op == token.EQL, true
+					})
+					if !ok1 {
+						return false
+					}
+					return (from.Succs[0] == to) == vEq
+				}
+				if isArity(cond) && !strings.Contains(x, "A") && onEqualEdge() {
 					x += "A"
 				}
-				if isType(cond) && !strings.Contains(x, "T") {
+				if isType(cond) && !strings.Contains(x, "T") && onEqualEdge() {
 					x += "T"
 				}
 				return x, false
@@ -227,6 +246,51 @@ func c17r3(c *RC) {
 		c.Check(bad == "", fmt.Sprintf("%s|%s-after-validation", fq, names[ti]), pr.Pos(tgt.Pos()),
 			"Scan reaches its "+names[ti]+" on a path that skipped "+bad+": a destination list of the wrong arity is silently accepted (truncated rows) or panics instead of setting an error", trail...)
 	}
+	// a mismatch (arity or type) records an error and ends the scan
+	nMis, okMis := 0, true
+	ast.Inspect(fn.Body, func(n ast.Node) bool {
+		ifs, ok := n.(*ast.IfStmt)
+		if !ok || !(isArity(ifs.Cond) || isType(ifs.Cond)) {
+			return true
+		}
+		nMis++
+		vEq, known := evalCond(ifs.Cond, func(e ast.Expr) (bool, bool) {
+			be, ok := ast.Unparen(e).(*ast.BinaryExpr)
+			if !ok || (be.Op != token.EQL && be.Op != token.NEQ) {
+				return false, false
+			}
+			return be.Op == token.EQL, true
+		})
+		var arm []ast.Stmt
+		if known && !vEq {
+			arm = ifs.Body.List // the then-branch is the mismatch
+		} else if known {
+			if el, ok := ifs.Else.(*ast.BlockStmt); ok {
+				arm = el.List
+			}
+		}
+		setsErr, retFalse := false, false
+		for _, st := range arm {
+			switch x := st.(type) {
+			case *ast.AssignStmt:
+				for _, l := range x.Lhs {
+					if canon(fn, l) == "$recv.err" {
+						setsErr = true
+					}
+				}
+			case *ast.ReturnStmt:
+				if len(x.Results) == 1 && expr(x.Results[0]) == "false" {
+					retFalse = true
+				}
+			}
+		}
+		if !(setsErr && retFalse) {
+			okMis = false
+		}
+		return true
+	})
+	c.Check(nMis >= 2 && okMis, fq+"|mismatch-is-an-error", pr.Pos(fn.Body.Pos()),
+		"a destination list of the wrong arity or type does not make Scan record an error and return false: the mismatch is accepted (a reflect panic, or rows assigned to the wrong variables) or silently ends the scan")
 	// the type check exists and sets s.err
 	hasType := false
 	ast.Inspect(fn.Body, func(n ast.Node) bool {
@@ -276,7 +340,7 @@ func c17r3(c *RC) {
 		ok := false
 		ast.Inspect(e.Body, func(n ast.Node) bool {
 			if ifs, isIf := n.(*ast.IfStmt); isIf {
-				if be, isBe := ast.Unparen(ifs.Cond).(*ast.BinaryExpr); isBe && be.Op == token.EQL && strings.HasSuffix(expr(be.Y), "EOF") {
+				if _, whenEq, isT := constTest(ifs.Cond, func(x string) bool { return strings.HasSuffix(x, ".err") }, "EOF"); isT && whenEq {
 					for _, st := range ifs.Body.List {
 						if r, isR := st.(*ast.ReturnStmt); isR && len(r.Results) == 1 && expr(r.Results[0]) == "nil" {
 							ok = true
@@ -369,6 +433,47 @@ func c17r4(c *RC) {
 			return true
 		})
 		c.Check(adv, q+"|advances-on-EOF", pr.Pos(loop.Pos()), "the multi-reader no longer drops the exhausted reader from its queue")
+		// ... and only then: on every path to the statement that drops the head
+		// reader, its read is known to have returned the end-of-stream sentinel
+		var advStmt *ast.AssignStmt
+		ast.Inspect(loop, func(n ast.Node) bool {
+			if a, ok := n.(*ast.AssignStmt); ok && len(a.Lhs) == 1 && len(a.Rhs) == 1 {
+				if sl, ok := a.Rhs[0].(*ast.SliceExpr); ok && expr(sl.X) == expr(a.Lhs[0]) && sl.Low != nil && expr(sl.Low) == "1" {
+					advStmt = a
+				}
+			}
+			return true
+		})
+		if advStmt != nil {
+			var errId *ast.Ident
+			ast.Inspect(fn.Body, func(m ast.Node) bool {
+				if a, ok := m.(*ast.AssignStmt); ok && len(a.Lhs) == 2 && len(a.Rhs) == 1 && ast.Unparen(a.Rhs[0]) == ast.Expr(read) {
+					errId, _ = a.Lhs[1].(*ast.Ident)
+				}
+				return true
+			})
+			al, okA := fl.LocOf(advStmt)
+			early := false
+			var tr2 []string
+			if okA && errId != nil {
+				ek := fl.Key(errId)
+				fl.Walk(Loc{loc.B, loc.I + 1}, "", nil, Visitor{
+					Node: func(n ast.Node, x string, s *Step) (string, bool) {
+						if s.Block == al.B && s.Idx == al.I {
+							if !strings.HasSuffix(s.Facts.Eq(ek), "EOF") {
+								early = true
+								tr2 = s.Trail()
+							}
+							return x, true
+						}
+						return x, false
+					}})
+			} else {
+				c.Undecide("%s: cannot locate the queue advance or the read's error variable", q)
+			}
+			c.Check(!early, q+"|advances-only-on-EOF", pr.Pos(advStmt.Pos()),
+				"the multi-reader drops its head reader on a path where that reader's Read is not known to have returned the end-of-stream sentinel (e.g. it returned no rows and no error): the rest of that input is silently lost", tr2...)
+		}
 	}
 }
 
